@@ -229,6 +229,12 @@ HandleTightBPP (rfbClient* client, int rx, int ry, int rw, int rh)
       bitsPixel = InitFilterPaletteBPP(client, rw, rh);
       break;
     case rfbTightFilterGradient:
+      /* the gradient filter keeps whole rows in client->tightPrevRow and in a
+         row buffer of the same size on the stack */
+      if (rw > (int)(sizeof(client->tightPrevRow) / (3 * sizeof(uint16_t)))) {
+	rfbClientLog("Tight encoding: rectangle too wide for the gradient filter.\n");
+	return FALSE;
+      }
       filterFn = FilterGradientBPP;
       bitsPixel = InitFilterGradientBPP(client, rw, rh);
       break;
